@@ -65,6 +65,7 @@ ASSUME PrintT(<<"SCN", ToJson(AllLayouts)>>)
 HasDupEntry(Ly) == \E s \in 1..Len(Ly.subs) : LET p == Pat(Ly, Ly.subs[s]) IN \E i, j \in 1..Len(p) : i < j /\ p[i] = p[j]
 HasRepeatedSrc(Ly) == \E i \in 1..Len(Ly.ins) : \E c1, c2 \in 0..(Ly.ins[i].sz - 1) : c1 < c2 /\ SrcPos(Ly, Ly.ins[i], c1) = SrcPos(Ly, Ly.ins[i], c2)
 HasNegative(Ly) == \E i \in 1..Len(Ly.ins) : \E k \in 1..Len(Ly.ins[i].idx) : Ly.ins[i].idx[k] < 0
+HasRepeats(Ly) == LET T == Slots(Ly) IN Cardinality({<<T[t].r, T[t].c>> : t \in 1..Len(T)}) < Len(T)
 ASSUME HasDupEntry(L1) /\ HasRepeatedSrc(L1) /\ HasNegative(L1) /\ HasRepeats(L1)
 ASSUME ~HasRepeats(L2) /\ HasNegative(L2)
 ASSUME HasRepeats(L3) /\ HasRepeatedSrc(L3) /\ ~HasDupEntry(L3)
